@@ -44,12 +44,44 @@ package tss
 // own public key = the accumulated commitment polynomial evaluated at the member id (curve arithmetic: abstract)
 //@ func ComputeOwnPublicKey
 //@ abstract
+// combination of partial signatures (sum of the R points, sum of the s scalars): curve arithmetic, abstract
+//@ func CombineSignatures
+//@ abstract
+// R / s halves of a 65-byte signature (byte slicing): opaque functions of the signature
+//@ func (s Signature) R
+//@ abstract
+//@ func (s Signature) S
+//@ abstract
+// the Schnorr equation  s*Gen == R + (c*lagrange)*PubKey  over parsed points/scalars (parsing + the internal/schnorr
+// check, which is verified on its own): named by a predicate over the raw encodings
+//@ spec schnorrOK(r Point, s Scalar, c Scalar, pk Point, gen Point, lag Scalar) Bool uninterpreted
+//@ func Verify
+//@ trusted
+//@ ensures err == nil <==> schnorrOK(rawSignatureR, rawSignatureS, rawChallenge, rawPubKey, rawGenerator, rawLagrange)
+// C03: a member's share is accepted iff  z_i*G == R_i + c*lambda_i*Y_i  where c is the challenge of the GROUP public
+// nonce, the group key and the message, R_i / z_i are the two halves of the submitted signature, Y_i the member's key
+//@ spec validShare(gpn Point, gpk Point, msg Bz, lag Scalar, sig Signature, own Point) Bool =
+//@      absfn("HashChallenge#1", gpn, gpk, msg) == nil && schnorrOK(absfn("Signature.R", sig), absfn("Signature.S", sig), absfn("HashChallenge#0", gpn, gpk, msg), own, nil, lag)
+//@ func VerifySigningSignature
+//@ ensures err == nil <==> validShare(groupPubNonce, groupPubKey, data, rawLagrange, signature, ownPubKey)
+// C03: a group signature (R, z) is valid iff  z*G == R + c*Y  with c the challenge of ITS OWN R, the group key and the message
+//@ spec validGroupSig(pk Point, msg Bz, sig Signature) Bool =
+//@      absfn("HashChallenge#1", absfn("Signature.R", sig), pk, msg) == nil && schnorrOK(absfn("Signature.R", sig), absfn("Signature.S", sig), absfn("HashChallenge#0", absfn("Signature.R", sig), pk, msg), pk, nil, nil)
+//@ func VerifyGroupSigningSignature
+//@ ensures err == nil <==> validGroupSig(groupPubKey, data, signature)
+// Lagrange coefficient of a member id within a set of ids (table / generic formula): abstract
+//@ func ComputeLagrangeCoefficient
+//@ abstract
+// group public nonce = sum of the assigned members' public nonces (curve arithmetic: abstract)
+//@ func ComputeGroupPublicNonce
+//@ abstract
 
 // C03: the challenge is keccak over the fixed BAND-TSS preimage
 //   context || 0x00 || "challenge" || 0x00 || address(R) || (parity byte of P + 25) || X(P) left-padded to 32 bytes || keccak(message)
 // converted to a scalar. (keccak, address derivation, padding and scalar conversion are abstract functions; the
 // clause pins which bytes are hashed, in which order, and that X(P) is padded to 32 bytes.)
 //@ func HashChallenge
+//@ pure
 //@ ensures err == nil ==> result == absfn("NewScalar", absfn("Hash", bytes(ContextString), bzmk(0), bytes("challenge"), bzmk(0),
 //@        ethAddr(rawGroupPubNonce), bzmk(wrapu8(rawGroupPubKey[0] + 25)),
 //@        PaddingBytes(ext("big.Int.Bytes", ext("PublicKey.X", absfn("Point.publicKey", rawGroupPubKey))), 32),
